@@ -34,13 +34,13 @@ PROPS = {
         "not_decided": "single ownership of sectors, no orphans, chain length vs stream size, sibling-tree order and colouring: invariants over the contents of FAT and directory across histories",
     },
     "C07": {
-        "rules": [rules_entry.reloc, rules_entry.hstore, rules_own.make("C07"), rules_struct.cutoff, rules_entry.moveall, rules_struct.unlink("C07"), rules_struct.blankown("C07"), rules_struct.linkkeep("C07")],
+        "rules": [rules_entry.reloc, rules_entry.hstore, rules_own.make("C07"), rules_struct.cutoff, rules_entry.moveall, rules_struct.unlink("C07"), rules_struct.blankown("C07"), rules_struct.linkkeep("C07"), rules_follow.make("R-MARK", "C07"), rules_struct.freshid],
         "explanation": "A handle is bound to its stream only by a slot index, so: R-RELOC - every whole-entry store into the directory table takes a freshly constructed entry (DirEntry::new/unallocated/empty_root_entry/read_from by provenance), never a copy of another slot, and no Vec reordering is applied to the table; "
                        "R-HSTORE - all DirEntry field stores reachable (call graph) from Stream methods are confined to start_sector/stream_len, no structural directory operation is reachable from a handle, and with_dir_entry_mut is applied to the handle's own stream_id; R-OWN - FAT/MiniFAT cells, sector (re)initialisation and the free lists change only inside the allocator's protocol functions with the protocol's argument shapes (a sector taken outside the protocol could be handed to two chains, so that a write through one handle lands in another stream).",
         "not_decided": "that the bytes of other streams are untouched (sector ownership is value-level); validity of a handle after its own stream is removed",
     },
     "C05": {
-        "rules": [rules_sink.sink("read"), rules_sink.qual_rule("read"), rules_sink.term("read"), rules_sink.alloc("read"), rules_guard.make("R-INV"), rules_own.make("C05"), rules_follow.make("R-CTOR", "C05")],
+        "rules": [rules_sink.sink("read"), rules_sink.qual_rule("read"), rules_sink.term("read"), rules_sink.alloc("read"), rules_guard.make("R-INV"), rules_own.make("C05"), rules_follow.make("R-CTOR", "C05"), rules_struct.chainpos("C05")],
         "explanation": "On the read surface (call-graph closure of the read-only API; the write-back path behind the dirty-marker call is cut because the marker is only ever set by Stream::write): "
                        "R-TERM - every natural loop has a termination certificate (finite std iterator, shrinking collection, grow-to-bound, seen-set with refusing exit, checked chain walk with first-sector test, or a named acyclicity invariant); "
                        "R-SINK - every panic-capable site (MIR Assert terminators for bounds/overflow/division, Index/IndexMut calls, unwrap/expect, panic and assertion expansions) is discharged by interval evaluation over MIR operands, by a dominating guard, by an id qualifier, or by an audited table entry whose required guard atoms still dominate it; "
@@ -57,13 +57,13 @@ PROPS = {
         "not_decided": "equality with a byte vector for all call sequences and buffer sizes (values of pos/cap/offset/total_len across histories); set_len near u64::MAX",
     },
     "C08": {
-        "rules": [rules_zero.run, rules_follow.make("R-INIT", "C08"), rules_io.poskeep, rules_det.short],
+        "rules": [rules_zero.run, rules_follow.make("R-INIT", "C08"), rules_io.poskeep, rules_det.short, rules_struct.ceil("C08")],
         "explanation": "R-ZERO: in the function that stores a stream's new length (resize_stream, reached from Stream::set_len), a zero-fill event (a backend write whose data provenance is io::repeat(0) / [0; N], directly or in a direct helper) exists, is controlled only by the comparison new length > old length, and lies on every path from the 'grows' edge of that comparison to the length store (error exits excepted). "
                        "Alternatively accepted: zeroing on shrink in both chain kinds plus zeroing of newly allocated mini sectors. R-INIT: regular sectors are reset with the requested initialiser (SectorInit::Zero for stream data) on both the reuse and the append path of allocate_sector.",
         "not_decided": "that the bytes are zero and that the zero-filled range is exactly [old, new): values",
     },
     "C09": {
-        "rules": [rules_name.validname, rules_name.norm, rules_name.orient, rules_struct.unit, rules_struct.unlink("C09"), rules_struct.blankown("C09"), rules_struct.linkkeep("C09"), rules_struct.fold("C09"), rules_api.errkind("C09")],
+        "rules": [rules_name.validname, rules_name.norm, rules_name.orient, rules_struct.unit, rules_struct.unlink("C09"), rules_struct.blankown("C09"), rules_struct.linkkeep("C09"), rules_struct.fold("C09"), rules_det.narrow_in("C09", ["internal::path::"], "the name validation / comparison functions"), rules_api.errkind("C09")],
         "explanation": "R-VALIDNAME (must-pass-through, interprocedural): from every DirEntry::new call with a non-constant name, walking up the call graph along the name argument to the public methods, some function validates the name (ok successor of validate_name on data derived from the same parameter dominates the forwarding call; a completed validation loop counts) and no state mutation precedes that validation on the chain. "
                        "R-NORM: every API method's path parameter reaches only name_chain_from_path (or formatting / forwarding to another API method), and lookups/inserts/removals take names derived from its result. "
                        "R-ORIENT: all compare_names sites agree on orientation (sought name first; Less -> left_sibling, Greater -> right_sibling in both the walk and the link update; validate rejects exactly != Less for (left,node) and (node,right)); no other comparator touches entry names in the directory layer. "
@@ -77,7 +77,7 @@ PROPS = {
         "not_decided": "bit-for-bit equality of state (follows from 'no effect ran' only given that effect-free code is effect-free, which the effect closure establishes for this crate); partial effects of the compound operations create_storage_all/remove_storage_all when a later step is refused by a callee",
     },
     "C11": {
-        "rules": [rules_sink.sink("mutation"), rules_sink.qual_rule("mutation"), rules_sink.term("mutation"), rules_sink.alloc("mutation"), rules_guard.make("R-INV"), rules_own.make("C11"), rules_follow.make("R-CTOR", "C11"), rules_struct.freelist, rules_entry.slotreset("C11")],
+        "rules": [rules_sink.sink("mutation"), rules_sink.qual_rule("mutation"), rules_sink.term("mutation"), rules_sink.alloc("mutation"), rules_guard.make("R-INV"), rules_own.make("C11"), rules_follow.make("R-CTOR", "C11"), rules_struct.freelist, rules_entry.slotreset("C11"), rules_struct.chainpos("C11")],
         "explanation": "Same engine as C05 on the mutation surface (every public method, dev profile so that debug assertions and overflow checks count as panics): R-TERM, R-SINK, R-QUAL, R-ALLOC, R-INV, R-CTOR, R-OWN. "
                        "Fields no validator covers (DirEntry.start_sector / stream_len, special FAT values) must reach index sites and raw walks only through the checked accessors or a dominating chain validation; the audit of the sink table found and led to repairs of five panics on damaged-but-accepted files, and records two more as known findings.",
         "not_decided": "as C05; behaviour of several handles on one stream (recorded as a known finding); resource exhaustion by caller-chosen sizes (set_len near u64::MAX)",
@@ -97,13 +97,13 @@ PROPS = {
         "not_decided": "no panic/hang after a failed write on half-updated state (C11's question); that the flushed bytes are the accepted bytes (values)",
     },
     "C15": {
-        "rules": [rules_guard.make("R-REUSE.consult"), rules_follow.make("R-REUSE"), rules_guard.make("R-CAP"), rules_follow.make("R-FREEOLD", "C15"), rules_own.make("C15"), rules_struct.killread("C15")],
+        "rules": [rules_guard.make("R-REUSE.consult"), rules_follow.make("R-REUSE"), rules_guard.make("R-CAP"), rules_follow.make("R-FREEOLD", "C15"), rules_own.make("C15"), rules_struct.killread("C15"), rules_mode.rawfield("C15")],
         "explanation": "R-REUSE: (a) every append path of allocate_sector / allocate_mini_sector / allocate_dir_entry is dominated by the 'nothing free' outcome of the free-list query (guard atoms); (b) every free feeds the list (free_sector => set_fat(FREE) + free_sectors.push on all Ok paths; likewise mini sectors; free_chain frees each visited sector); (c) validate rebuilds both lists from exactly the FREE cells. "
                        "R-CAP: the branch guarding each extension of the mini-stream chain and of the MiniFAT chain has the chain's physical length (Chain::len / num_sectors) in its condition, not only the logical length that shrinks on release. R-FREEOLD: wherever a stream that already has a chain is moved to a freshly started chain (mini<->regular migration), and before a removed stream's entry goes away, the old chain is freed first on every path.",
         "not_decided": "that file size is constant from the second repetition of any net-zero cycle (values of the free lists over histories); LIFO order; truncation of the file (the code has none)",
     },
     "C16": {
-        "rules": [rules_mode.run, rules_struct.sibflag("C16")],
+        "rules": [rules_mode.run, rules_struct.sibflag("C16"), rules_mode.rawfield("C16")],
         "explanation": "R-MODE over all is_strict() tests (19 call sites): S - the region of the CFG dominated by the strict edge of each mode test contains no store, no mutating call and no Ok return, only refusals of kind InvalidData; "
                        "P/N - the region dominated by the permissive edge is either a listed normaliser that only pops/truncates its listed vector (DIFAT zero-stripping, FAT tail stripping, MiniFAT truncation) or a canonicalising assignment nested inside a documented deviation test; no refusal is made only in permissive mode. "
                        "Deviation inventory: each of the 18 documented deviations is located (regexes over guard atoms) as a refusal with is_strict() on its path (or, for the zero-padded FAT, an unconditional refusal pre-empted by the permissive normaliser).",
@@ -117,7 +117,7 @@ PROPS = {
         "not_decided": "exact values returned; 100 ns rounding direction; saturation limits; clock bracketing of a new storage's times (values)",
     },
     "C18": {
-        "rules": [rules_det.short, rules_det.seekfirst, rules_det.nondet, rules_io.poskeep, rules_det.kindkeep("C18")],
+        "rules": [rules_det.short, rules_det.seekfirst, rules_det.nondet, rules_io.poskeep, rules_det.kindkeep("C18"), rules_det.trunc("C18")],
         "explanation": "R-SHORT: each of the short-count primitives (Read::read/Write::write call sites) returns its count to the caller and advances its position by exactly that count, so results cannot depend on how the backend splits transfers; everything else uses exact-transfer forms. "
                        "R-SEEKFIRST: raw backend I/O occurs only in Sector methods, the absolute-seek helpers and two listed sequential constructors; a Sector is only built after a successful seek(SeekFrom::Start). "
                        "R-NONDET: clock reads confined to Timestamp::now (from insert_dir_entry) and touch; no iteration over randomly seeded hash containers; no pointer-to-integer casts.",
